@@ -53,6 +53,18 @@ def p_enc(op, args, real):
     return None
 
 
+def dir_shadow(args):
+    """known finding, same root cause: general form, rcp not named, an oct key, a `dir` recipient precedes the key's own"""
+    jwe, jwk = args.get("jwe"), args.get("jwk")
+    if "rcp" in args or not isinstance(jwe, dict) or not isinstance(jwe.get("recipients"), list):
+        return False
+    keys = jwk if isinstance(jwk, list) else [jwk]
+    if not any(isinstance(k, dict) and k.get("kty") == "oct" for k in keys):
+        return False
+    algs = [(r.get("header") or {}).get("alg") for r in jwe["recipients"] if isinstance(r, dict)]
+    return "dir" in algs[:-1]
+
+
 def rsa15_shadow(args):
     """known finding: general form, rcp not named, key is RSA, an RSA1_5 recipient precedes the key's own recipient"""
     jwe, jwk = args.get("jwe"), args.get("jwk")
@@ -72,6 +84,8 @@ def p_dec(op, args, real):
     if exp is not None:
         if not real.get("ok") and rsa15_shadow(args):
             return ("dec:rsa15-shadows-later-recipient", "an RSA1_5 recipient earlier in the list shadows this key's recipient: " + json.dumps(strip(args))[:200])
+        if not real.get("ok") and dir_shadow(args):
+            return ("dec:dir-shadows-later-recipient", "a dir recipient earlier in the list shadows this key's recipient: " + json.dumps(strip(args))[:200])
         if not real.get("ok"):
             return ("dec:rejects-valid", "decryption failed (%s): %s" % (args.get("_why"), json.dumps(strip(args))[:400]))
         if real.get("pt") != exp:
@@ -267,11 +281,14 @@ def run_multi(ctx, pool, pts):
     quick = ctx.tier == "quick"
     kinds = [("A128KW", "oct-16"), ("A256GCMKW", "oct-32"), ("ECDH-ES+A128KW", "EC-P256"), ("RSA-OAEP", "RSA-2048"),
              ("PBES2-HS256+A128KW", "pw"), ("A192KW", "oct-24"), ("ECDH-ES+A256KW", "EC-P521"), ("RSA1_5", "RSA-2048-b")]
+    dirkey = {"kty": "oct", "k": b64u(rng.randbytes(16)), "alg": "A128GCM"}
     def key(n):
-        return "correct horse" if n == "pw" else pool[n]
+        return "correct horse" if n == "pw" else dirkey if n == "dirkey" else pool[n]
     state = []
     # the recorded finding, always exercised: an RSA1_5 recipient in front of another RSA recipient
     state.append({"jwe": {"protected": {"enc": "A128GCM"}}, "cek": {}, "sel": [kinds[7], kinds[3]], "i": 0, "enc": "A128GCM", "pt": pts[1]})
+    # likewise recorded: a dir recipient in front of a key-wrap recipient (the direct key is the CEK)
+    state.append({"jwe": {"protected": {"enc": "A128GCM"}}, "cek": {}, "sel": [("dir", "dirkey"), ("A128KW", "oct-16")], "i": 0, "enc": "A128GCM", "pt": pts[1]})
     for _ in range(30 if quick else 300):
         n = rng.randrange(1, 4)
         sel = [rng.choice(kinds) for _ in range(n)]
